@@ -64,8 +64,10 @@ struct C02 : Prop {
 				std::vector<uint8_t> last_good;
 				for (int k = 0; k < npk && budget_msgs < 100; k++) {
 					std::vector<uint8_t> bytes;
+					const char *inj = nullptr;
 					uint64_t x = r.below(100);
 					if (x < 10) {
+						inj = "noise";
 						// noise between packets
 						size_t n = (size_t) r.range(1, 20);
 						for (size_t i = 0; i < n; i++) { uint8_t b = r.byte(); if (b == 0xFE && r.chance(800)) b = 0x7E; bytes.push_back(b); }
@@ -82,20 +84,20 @@ struct C02 : Prop {
 							// corrupt this packet
 							size_t pos = 1 + (size_t) r.below(bytes.size() - 2);
 							switch (r.below(6)) {
-								case 0: bytes[pos] ^= (uint8_t) (1u << r.below(8)); break;
-								case 1: bytes.erase(bytes.begin() + (long) pos); break;
-								case 2: bytes.insert(bytes.begin() + (long) pos, r.byte()); break;
-								case 3: bytes.resize(pos); break;                                          // truncated packet
-								case 4: bytes.insert(bytes.begin() + (long) pos, 0xFE); break;               // stray delimiter inside
-								case 5: bytes.insert(bytes.begin(), (size_t) r.range(1, 3), 0xFE); break;    // duplicate delimiters
+								case 0: bytes[pos] ^= (uint8_t) (1u << r.below(8)); inj = "bit-flip"; break;
+								case 1: bytes.erase(bytes.begin() + (long) pos); inj = "byte-dropped"; break;
+								case 2: bytes.insert(bytes.begin() + (long) pos, r.byte()); inj = "byte-inserted"; break;
+								case 3: bytes.resize(pos); inj = "truncated"; break;                                          // truncated packet
+								case 4: bytes.insert(bytes.begin() + (long) pos, 0xFE); inj = "stray-delimiter"; break;               // stray delimiter inside
+								case 5: bytes.insert(bytes.begin(), (size_t) r.range(1, 3), 0xFE); inj = "duplicate-delimiters"; break;    // duplicate delimiters
 							}
 						} else if (x < 50 && !last_good.empty()) {
-							bytes = last_good;   // exact duplicate of an earlier good packet: must be delivered again
+							bytes = last_good; inj = "duplicated-packet";   // exact duplicate of an earlier good packet: must be delivered again
 						} else last_good = bytes;
 					}
 					J e = J::obj();
 					t += (int) r.range(0, 4000);
-					e.set("at_us", t); e.set("raw", hex_of(bytes));
+					e.set("at_us", t); e.set("raw", hex_of(bytes)); if (inj) e.set("inj", inj);
 					if (r.chance(400)) e.set("gap_us", (int) r.range(1, 6000));
 					if (r.chance(400) && bytes.size() > 1) { e.set("split_at", (int) r.below(bytes.size())); e.set("split_gap_us", (int) r.range(1000, 30000)); }
 					ev.push(e);
